@@ -3,6 +3,8 @@
 Correspondence: the real in_toto_verify against the extracted model on supply chains with nested
 delegations (depth 1-3, several delegating functionaries of one step, thresholds over a mix of links
 and sublayouts) and every way a sublayout can be bad that the property's quantifier names."""
+import os
+
 from harness import vcore, vscen
 from vlib import core
 
@@ -81,19 +83,81 @@ def dist(recs):
     return d
 
 
+class CallSpy:
+    """records the recursive calls of the real in_toto_verify and checks what C06_sub_call_is / C06_summary_name say
+    about them (the intermediate summaries are not visible in the root's result): exactly one key = the file-name key
+    id, directory <parent>/<step>.<keyid[:8]>, no parameters, the step's name handed down and carried by the summary"""
+
+    def __init__(self):
+        self.stack, self.roots, self.nested, self.problems = [], 0, 0, []
+
+    def __enter__(self):
+        import in_toto.verifylib as vl
+        self.vl, self.orig = vl, vl.in_toto_verify
+        spy = self
+
+        def wrapped(metadata, layout_key_dict, link_dir_path=".", substitution_parameters=None, step_name="", **kw):
+            if not spy.stack:
+                spy.roots += 1
+            else:
+                spy.nested += 1
+                parent = spy.stack[-1]
+                kids = list(layout_key_dict)
+                bad = []
+                if len(kids) != 1:
+                    bad.append("key dict has %d keys" % len(kids))
+                elif os.path.basename(link_dir_path) != "%s.%s" % (step_name, kids[0][:8]):
+                    bad.append("directory %r for step %r key %s" % (os.path.basename(link_dir_path), step_name, kids[0][:8]))
+                if os.path.dirname(link_dir_path) != parent:
+                    bad.append("directory is not a sub-directory of the parent's")
+                if substitution_parameters is not None:
+                    bad.append("parameters handed down")
+                if not step_name:
+                    bad.append("no step name handed down")
+                if bad:
+                    spy.problems.append((spy.roots - 1, "; ".join(bad)))
+            spy.stack.append(link_dir_path)
+            try:
+                res = spy.orig(metadata, layout_key_dict, link_dir_path=link_dir_path,
+                               substitution_parameters=substitution_parameters, step_name=step_name, **kw)
+            finally:
+                spy.stack.pop()
+            if spy.stack and res.name != step_name and (res.materials or res.products or metadata.get_payload().steps):
+                spy.problems.append((spy.roots - 1, "summary of step %r is named %r" % (step_name, res.name)))
+            return res
+        vl.in_toto_verify = wrapped
+        return self
+
+    def __exit__(self, *a):
+        self.vl.in_toto_verify = self.orig
+
+
 def run(ctx):
     n = 2400 if ctx.thorough() else 330
     core.check_props(ctx, PROPS)
     fams = ("ed25519", "rsa", "ecdsa") if ctx.thorough() else ("ed25519",)
-    recs, model = vcore.run_scenarios(ctx, opt_sets(), n, families=fams)
+    with CallSpy() as spy:
+        recs, model = vcore.run_scenarios(ctx, opt_sets(), n, families=fams)
+    for idx, what in spy.problems[:3]:
+        ctx.violation("recursive call of in_toto_verify: " + what,
+                      vcore.replay_file(recs[idx]) if 0 <= idx < len(recs) else {"scenario_index": idx})
+    ctx.notes.append("recursive calls observed on the real code: %d in %d root calls" % (spy.nested, spy.roots))
     return vcore.report(
         ctx, "C06", recs, model, PROPS,
         "in_toto_verify disagrees with the model on a scenario with delegated steps",
-        relevant=relevant, extra_cov={"delegation": dist(recs)},
+        relevant=relevant, extra_cov={"delegation": dist(recs), "recursive_calls_observed": spy.nested,
+                                      "recursive_call_argument_problems": len(spy.problems)},
         assumptions=["theorems about Model/Verify.v (verify = structural fixpoint over the link-directory tree); "
                      "tie: differential run of in_toto_verify on generated nested supply chains with bad sublayouts of every "
                      "kind named by the property; compared: verdict class, summary link, ordered inspection log"])
 
 
 def replay(ctx, obj):
-    return vcore.replay(ctx, "C06", obj)
+    with CallSpy() as spy:
+        rc = vcore.replay(ctx, "C06", obj)
+    for _, what in spy.problems[:3]:
+        print("  -> recursive call of in_toto_verify: " + what)
+    if spy.problems and not rc:
+        print("VIOLATION property=C06 replay=%s" % obj.get("rerun", "").split()[-1])
+        return 1
+    return rc
